@@ -1,7 +1,7 @@
 (* C01/Props.v — property-level theorems of C01 over the Cluster model (coq/theories/Cluster/Model.v). *)
 From Coq Require Import List ZArith Bool Lia.
 From BLB Require Import Gen.Consts C01.Model Cluster.Proofs Cluster.Frame Cluster.Inv Cluster.Window Cluster.Attempts C01.Witness.
-From BLB Require Import Cluster.Sched Cluster.Order Cluster.Contain Cluster.Visible Cluster.Lower Cluster.Prov Cluster.Cand Cluster.Crash C01.Ladder.
+From BLB Require Import Cluster.Sched Cluster.Order Cluster.Contain Cluster.Visible Cluster.Lower Cluster.Prov Cluster.Cand Cluster.Crash Cluster.Reader C01.Ladder.
 Import ListNotations.
 Open Scope Z_scope.
 
@@ -235,3 +235,43 @@ Proof. vm_compute. reflexivity. Qed.
 Theorem ladder_levels_nested : forall L evs, L <= 4 -> ok_run L init_state evs = true -> ok_run5 init_state evs = true.
 Proof. intros L evs. apply ok_run_5. Qed.
 Print Assumptions ladder_levels_nested.
+
+(* ------------------------------------------------------------------ the reader clause beyond the lookup instant *)
+(* Store.Read checks the version with == (Model.ts_read: a copy whose version differs answers ErrVersionMismatch, a
+   missing copy ErrNoSuchTract), so a Read through a location entry is answered only by a host that still holds its copy
+   at exactly the entry's version.  ke_acks is the number of acknowledged writes at the moment the lookup executed:
+   Reader.before st (ke_acks ke) are the writes acknowledged before the lookup. *)
+
+(* [FULL] c01_stale_location_read_is_fresh_or_refused - along every schedule of level 5 and at any later moment for every location entry a client obtained from GetTracts however stale and every host the entry names a Read through the entry is either refused with no such tract or version mismatch which makes the client look up again or it is answered with OK or EOF by a copy at exactly the entry's version and then the bytes are those of that copy and on every byte the copy shows a write at least as new as every write that was acknowledged before the lookup and covers the byte and exactly that write if it is still the newest attempt on the byte. So a reader whose lookup followed the acknowledgement never gets older or partial data whichever named host answers and however late it reads. A reader whose lookup preceded the acknowledgement is outside the clause - a host dropped from the host list that still answers at the old version serves such a reader the old bytes legitimately *)
+Theorem c01_stale_location_read_is_fresh_or_refused : forall evs, ok_run5 init_state evs = true ->
+  let st := run_state init_state evs in
+  forall ke h len off c n runs,
+    In ke (s_know st) -> ke_durable ke = true -> In h (ke_hosts ke) ->
+    ts_read (s_reps st) h (ke_tk ke) (ke_ver ke) len off = (c, n, runs) ->
+    (c = cl_ErrNoSuchTract \/ c = cl_ErrVersionMismatch) \/
+    ((c = cl_NoError \/ c = cl_ErrEOF) /\
+     exists r, rget (s_reps st) (h, ke_tk ke) = Some r /\ r_ver r = ke_ver ke /\
+       runs = render (r_app r) off (Z.min (off + len) (app_len (r_app r))) /\
+       forall wid W p, In (fst (ke_tk ke), wid, W) (before st (ke_acks ke)) -> 0 <= p < TL ->
+         covers W (snd (ke_tk ke) * TL + p) = true ->
+         wid <= byte_at (r_app r) p /\
+         (newest_cover (s_att st) (fst (ke_tk ke)) (snd (ke_tk ke) * TL + p) = Some wid -> byte_at (r_app r) p = wid)).
+Proof. exact stale_location_read. Qed.
+Print Assumptions c01_stale_location_read_is_fresh_or_refused.
+
+(* non-vacuity: at some moment of the level 3 witness a client holds an entry from a lookup that saw an acknowledgement whose version is already superseded while a host it names still answers at that old version *)
+Definition stale_entry_answering (st : state) : bool :=
+  existsb (fun ke => ke_durable ke && (1 <=? ke_acks ke) &&
+    match tget (s_dtr st) (ke_tk ke) with Some (dv, _) => ke_ver ke <? dv | None => false end &&
+    existsb (fun h => match rget (s_reps st) (h, ke_tk ke) with Some r => r_ver r =? ke_ver ke | None => false end) (ke_hosts ke)) (s_know st).
+Example c01_stale_location_read_nonvacuous :
+  ok_run5 init_state l3_ops &&
+  existsb (fun n => stale_entry_answering (run_state init_state (firstn n l3_ops))) (seq 0 (S (length l3_ops))) = true.
+Proof. vm_compute. reflexivity. Qed.
+
+(* [FULL] host_version_window - along every schedule of level 5 a durable host that holds a copy of the tract holds it at the durable version or one version ahead. Presence of the copy is a premise and not a conclusion because a PullTract whose sources all fail removes the local copy and a host without a copy refuses every request which is all the property needs *)
+Theorem host_version_window : forall evs, ok_run5 init_state evs = true ->
+  let st := run_state init_state evs in
+  forall tk dv H h r, tget (s_dtr st) tk = Some (dv, H) -> In h H -> rget (s_reps st) (h, tk) = Some r -> dv <= r_ver r <= dv + 1.
+Proof. exact version_window. Qed.
+Print Assumptions host_version_window.
